@@ -74,7 +74,7 @@ def main():
         if name=="position": s2+=EXTRA["C06"][1]
         open(p,"w").write(s2)
         t=time.time()
-        r=sh("/verif/bin/check %s quick"%prop)
+        r=sh("VERIF_OUT=/verif/.build/mut /verif/bin/check %s quick"%prop)
         res="caught" if (r.returncode==1 and "VIOLATION" in r.stdout) else ("build-failed" if r.returncode==2 else "MISSED(rc=%d)"%r.returncode)
         classes=[l.strip()[6:].split(" count=")[0] for l in r.stdout.splitlines() if l.strip().startswith("class=")]
         sh("git -C /repo checkout -- .")
